@@ -13,7 +13,7 @@
    once, proved canonical in C14; of_verbosity, printing only) and the other API steps are covered by
    the correspondence: interleaved runs of mixed sessions against solo runs in fresh processes. *)
 From Coq Require Import ZArith Arith List Bool.
-From OFV Require Import Sparse Interleave IndepLdpc LdpcEnc ITModel ITProofs MLModel MLSession.
+From OFV Require Import Sparse Interleave IndepLdpc LdpcEnc ITModel ITProofs MLModel MLSession InterleaveObs.
 Import ListNotations.
 
 Theorem sessions_independent :
@@ -23,9 +23,9 @@ Theorem sessions_independent :
   outs_of Out i (grun G S Op Out step g st h) = solo G S Op Out step g' (st i) (ops_of Op i h).
 Proof. exact sessions_independent_proof. Qed.
 
-Theorem ldpc_configuration_is_independent : forall fuel (h : list (nat * cfg)) g st i g',
-  outs_of bool i (grun Z (option (smat * bool)) cfg bool (ldpc_configure fuel) g st h)
-  = solo Z (option (smat * bool)) cfg bool (ldpc_configure fuel) g' (st i) (ops_of cfg i h).
+Theorem ldpc_configuration_is_independent : forall fuel (h : list (nat * IndepLdpc.cfg)) g st i g',
+  outs_of bool i (grun Z (option (smat * bool)) IndepLdpc.cfg bool (ldpc_configure fuel) g st h)
+  = solo Z (option (smat * bool)) IndepLdpc.cfg bool (ldpc_configure fuel) g' (st i) (ops_of IndepLdpc.cfg i h).
 Proof. exact ldpc_sessions_independent_proof. Qed.
 
 Theorem ldpc_finish_status_independent_of_rand :
@@ -47,6 +47,40 @@ Theorem ldpc_finish_status_independent_of_rand :
   ml_finish sxor s0 fuel1 perm1 s1 = Some o1 -> ml_finish sxor s0 fuel2 perm2 s2 = Some o2 -> o_ok o1 = o_ok o2.
 Proof. exact ldpc_session_finish_order_independent. Qed.
 
+(* Observational version (InterleaveObs.v): it suffices that the steps preserve a relation R between session states
+   and give equal outputs on R-related states, whatever the two global states.  This is what of_finish_decoding
+   needs: the permutation it draws from the shared rand() state may change the decoder's internals, not what the
+   application can observe. *)
+Theorem sessions_independent_observationally :
+  forall (G S Op Out : Type) (step : G -> S -> Op -> G * S * Out) (R : S -> S -> Prop),
+  (forall s s', R s s' -> forall g g' o, R (snd (fst (step g s o))) (snd (fst (step g' s' o))) /\ snd (step g s o) = snd (step g' s' o)) ->
+  forall (h : list (nat * Op)) (g : G) (st : nat -> S) (i : nat) (g' : G) (s' : S), R (st i) s' ->
+  outs_of Out i (grun G S Op Out step g st h) = solo G S Op Out step g' s' (ops_of Op i h).
+Proof. exact sessions_independent_obs. Qed.
+
+(* the C's shuffle loop of of_finish_decoding yields a permutation of the rows whatever rand() returns *)
+Theorem finish_shuffle_is_a_permutation : forall r rvs,
+  (forall c, c < r -> In c (shuffle r rvs)) /\ (forall c, In c (shuffle r rvs) -> c < r) /\ NoDup (shuffle r rvs) /\ length (shuffle r rvs) = r.
+Proof. exact shuffle_perm. Qed.
+
+(* The complete LDPC-Staircase decoder session as a machine over the shared rand() state (any type G, any function
+   draw : G -> nat -> list nat * G, nothing assumed about it): Submit (any column, any order, duplicates), Finish
+   (draws R0 values, shuffles, runs the ML finish), Query.  Every operation outputs (status, completion flag, the
+   source table).  For ANY interleaving with other sessions in ANY states and ANY two rand() states, a session that
+   starts from the initial state of a well-formed configuration outputs what it outputs alone. *)
+Theorem ldpc_session_is_independent_of_every_other_session :
+  forall (Sy : Type) (sxor : Sy -> Sy -> Sy) (s0 : Sy),
+  (forall a b c, sxor a (sxor b c) = sxor (sxor a b) c) -> (forall a b, sxor a b = sxor b a) ->
+  (forall a, sxor s0 a = a) -> (forall a, sxor a a = s0) -> (exists a : Sy, a <> s0) ->
+  forall (G : Type) (draw : G -> nat -> list nat * G) (c : InterleaveObs.cfg Sy), WFcfg Sy sxor s0 c ->
+  forall (h : list (nat * lop)) (g g' : G) (st : nat -> lsess Sy) (i : nat), st i = init_sess Sy c ->
+  outs_of (lout Sy) i (grun G (lsess Sy) lop (lout Sy) (lstep Sy sxor s0 G draw) g st h)
+  = solo G (lsess Sy) lop (lout Sy) (lstep Sy sxor s0 G draw) g' (st i) (ops_of lop i h).
+Proof. exact ldpc_sessions_independent_full. Qed.
+
 Print Assumptions sessions_independent.
+Print Assumptions sessions_independent_observationally.
+Print Assumptions finish_shuffle_is_a_permutation.
+Print Assumptions ldpc_session_is_independent_of_every_other_session.
 Print Assumptions ldpc_finish_status_independent_of_rand.
 Print Assumptions ldpc_configuration_is_independent.
